@@ -96,18 +96,30 @@ impl Parse for Value {
 			}
 		}
 
-		loop {
+		let result = loop {
 			match stack.pop() {
-				None => match Fragment::value_or_parse(
+				None => match match Fragment::value_or_parse(
 					value.take(),
 					parser,
 					stack_context(&stack, context),
-				)? {
+				) {
+					Ok(fragment) => fragment,
+					Err(e) => break Err(e),
+				} {
 					Meta(Fragment::Value(value), i) => {
-						parser.skip_whitespaces()?;
-						break match parser.next_char()? {
-							(p, Some(c)) => Err(Error::unexpected(p, Some(c))),
-							(_, None) => Ok(Meta(value, i)),
+						let end = parser
+							.skip_whitespaces()
+							.and_then(|()| parser.next_char());
+						break match end {
+							Ok((_, None)) => Ok(Meta(value, i)),
+							Ok((p, Some(c))) => {
+								drop_values(vec![value]);
+								Err(Error::unexpected(p, Some(c)))
+							}
+							Err(e) => {
+								drop_values(vec![value]);
+								Err(e)
+							}
 						};
 					}
 					Meta(Fragment::BeginArray, i) => {
@@ -118,15 +130,29 @@ impl Parse for Value {
 					}
 				},
 				Some(StackItem::Array(Meta(array, i))) => {
-					match array::ContinueFragment::parse_in(parser, i)? {
-						array::ContinueFragment::Item => {
+					match array::ContinueFragment::parse_in(parser, i) {
+						Ok(array::ContinueFragment::Item) => {
 							stack.push(StackItem::ArrayItem(Meta(array, i)))
 						}
-						array::ContinueFragment::End => value = Some(Meta(Value::Array(array), i)),
+						Ok(array::ContinueFragment::End) => {
+							value = Some(Meta(Value::Array(array), i))
+						}
+						Err(e) => {
+							stack.push(StackItem::Array(Meta(array, i)));
+							break Err(e);
+						}
 					}
 				}
 				Some(StackItem::ArrayItem(Meta(mut array, i))) => {
-					match Fragment::value_or_parse(value.take(), parser, Context::Array)? {
+					let item = match Fragment::value_or_parse(value.take(), parser, Context::Array) {
+						Ok(item) => item,
+						Err(e) => {
+							stack.push(StackItem::Array(Meta(array, i)));
+							break Err(e);
+						}
+					};
+
+					match item {
 						Meta(Fragment::Value(value), _) => {
 							array.push(value);
 							stack.push(StackItem::Array(Meta(array, i)));
@@ -142,17 +168,33 @@ impl Parse for Value {
 					}
 				}
 				Some(StackItem::Object(Meta(object, i))) => {
-					match object::ContinueFragment::parse_in(parser, i)? {
-						object::ContinueFragment::Entry(key) => {
+					match object::ContinueFragment::parse_in(parser, i) {
+						Ok(object::ContinueFragment::Entry(key)) => {
 							stack.push(StackItem::ObjectEntry(Meta(object, i), key))
 						}
-						object::ContinueFragment::End => {
+						Ok(object::ContinueFragment::End) => {
 							value = Some(Meta(Value::Object(object), i))
+						}
+						Err(e) => {
+							stack.push(StackItem::Object(Meta(object, i)));
+							break Err(e);
 						}
 					}
 				}
 				Some(StackItem::ObjectEntry(Meta(mut object, i), Meta(key, e))) => {
-					match Fragment::value_or_parse(value.take(), parser, Context::ObjectValue)? {
+					let item = match Fragment::value_or_parse(
+						value.take(),
+						parser,
+						Context::ObjectValue,
+					) {
+						Ok(item) => item,
+						Err(err) => {
+							stack.push(StackItem::Object(Meta(object, i)));
+							break Err(err);
+						}
+					};
+
+					match item {
 						Meta(Fragment::Value(value), _) => {
 							parser.end_fragment(e);
 							object.push(key, value);
@@ -169,6 +211,37 @@ impl Parse for Value {
 					}
 				}
 			}
+		};
+
+		if result.is_err() {
+			// The values parsed so far can be deeply nested: drop them without
+			// recursion so that a parse error cannot overflow the stack.
+			drop_values(
+				stack
+					.into_iter()
+					.map(|item| match item {
+						StackItem::Array(Meta(array, _)) | StackItem::ArrayItem(Meta(array, _)) => {
+							Value::Array(array)
+						}
+						StackItem::Object(Meta(object, _))
+						| StackItem::ObjectEntry(Meta(object, _), _) => Value::Object(object),
+					})
+					.chain(value.map(Meta::into_value))
+					.collect(),
+			);
+		}
+
+		result
+	}
+}
+
+/// Drops the given values iteratively (no recursion on the nesting depth).
+fn drop_values(mut values: Vec<Value>) {
+	while let Some(value) = values.pop() {
+		match value {
+			Value::Array(array) => values.extend(array),
+			Value::Object(object) => values.extend(object.into_iter().map(|entry| entry.value)),
+			_ => (),
 		}
 	}
 }
